@@ -334,11 +334,17 @@ pub fn recomment(src: &str, rng: &mut Rng) -> String {
         let c = chars[i];
         if c == '\n' && !in_string && !in_block_comment {
             if !in_line_comment && rng.chance(1, 2) {
-                out.push_str(match rng.below(4) {
+                out.push_str(match rng.below(9) {
                     0 => " // c",
                     1 => " /* c */",
                     2 => "// c",
-                    _ => " /* a */ /* b */",
+                    3 => " /* a */ /* b */",
+                    // comment texts made of the comment delimiters' own characters
+                    4 => " /** banner **/",
+                    5 => " /****/",
+                    6 => " /* a * b / c ** */",
+                    7 => " // /* not a block comment",
+                    _ => " /***/ /* // */",
                 });
             }
             in_line_comment = false;
